@@ -71,6 +71,18 @@ pub fn check(c: &StrCase) -> Verdict {
         Ok(Err(_)) => return Verdict::Pass(Pass::new(format!("{}/refused", c.stratum), false).count("refused", 1)),
         Err(_) => return Verdict::Pass(Pass::new(format!("{}/encoder-panic(C11)", c.stratum), false).count("encoder_panics", 1)),
     };
+    // DataMatrix::encode_str(text, list) is the builder with that list and default settings
+    if let Some((list, 63, true, false)) = c.cfg {
+        match guard(|| DataMatrix::encode_str(&c.s, mask_to_list(list))) {
+            Ok(Ok(w)) => {
+                if w.size != dm.size || w.codewords() != dm.codewords() {
+                    return fail(format!("DataMatrix::encode_str with list {} returns {:?}, the builder with the same settings {:?} (s = {:?})", mask_names(list), w.size, dm.size, c.s));
+                }
+            }
+            Ok(Err(e)) => return fail(format!("DataMatrix::encode_str refuses ({:?}) what the builder with the same settings encodes (s = {:?})", e, c.s)),
+            Err(_) => {}
+        }
+    }
     let cw = dm.data_codewords();
     match guard(|| datamatrix::data::decode_str(cw)) {
         Ok(Ok(out)) if out == c.s => {}
